@@ -60,6 +60,7 @@ def main():
     ap.add_argument("-j", type=int, default=4)
     ap.add_argument("--repo", default="/repo")
     ap.add_argument("--tier", default="quick")
+    ap.add_argument("--merge-evidence")
     a = ap.parse_args()
     os.makedirs(SCRATCH, exist_ok=True)
     jobs = []
@@ -74,15 +75,23 @@ def main():
                 continue
             jobs.append((prop, m))
     bad = 0
+    results = []
     with concurrent.futures.ThreadPoolExecutor(a.j) as ex:
         futs = {ex.submit(run_mutant, p, m, a.repo, a.tier): (p, m) for p, m in jobs}
         for fu in concurrent.futures.as_completed(futs):
             p, m = futs[fu]
             mid, st, info = fu.result()
             print(f"{p} {mid:40s} {st:14s} {info}", flush=True)
+            results.append({"mutant": mid, "result": st, "why": m.get("why", ""), "info": info[:200]})
             if st not in ("CAUGHT", "SILENT-OK", "SKIP"):
                 bad += 1
     print(f"selfcheck: {len(jobs)} mutants, {bad} not as expected")
+    if a.merge_evidence and os.path.exists(a.merge_evidence):
+        ev = json.load(open(a.merge_evidence))
+        results.sort(key=lambda r: r["mutant"])
+        ev["coverage"]["selfcheck"] = {"what": "mutant replay on scratch copies of /repo's current tree with the same analyser binary (DESIGN 2.5)",
+                                       "mutants": len(jobs), "as_expected": len(jobs) - bad, "results": results}
+        json.dump(ev, open(a.merge_evidence, "w"), indent=1)
     sys.exit(1 if bad else 0)
 
 if __name__ == "__main__":
